@@ -989,7 +989,65 @@ def writes_value_type(ctx, g, depth=0):
     return False
 
 
-RULES = [("C09-R1", r1a_typing_tables), ("C09-R1b", r1b_accepted_is_evaluable), ("C09-R1c", r1c_inferred_types), ("C09-R1d", r1d_inferred_type_is_sound), ("C09-R2", r2_rule_presence), ("C09-R3", r3_context_per_function), ("C09-R4", r4_declared_type_follows_latest_declaration), ("C09-R5", r5_every_child_is_checked), ("C09-R6", r6_scope_of_a_declaration), ("C09-R7", r7_fixpoints_run_to_the_end), ("C09-R8", r8_static_tables_are_the_documented_ones), ("C09-R9", r9_return_types_are_inferred_in_the_function_s_own_scope), ("C09-R10", r10_static_types_stay_true_under_assignment)]
+def r11_always_returns_is_a_must_analysis(ctx):
+    """The implicit null of C09-R9(b) is left out only when *every* path through the body ends in `return`.  The routine that
+    says so has to be a must-analysis, kind by kind: `return` yes; an `if` only when both branches do, and an `if` without an
+    else never; a loop never (its body may not run); a nested block what its statements say; every other statement no; and a
+    sequence when some statement of it does.  With `no else` counted as returning, `if (c) start return "text" end` types the
+    function as a string, and a caller that treats the missing value as falsy (`not f(x)`) is rejected although it is valid."""
+    from ..tables import mir_enum_table
+    from .c02 import _dispatch_arm
+    f = ctx.lib.fns.get("resolver::Resolver::collect_return_types_from_stmt")
+    if f is None:
+        ctx.bad("always-returns|anchor", "", "collect_return_types_from_stmt not found")
+        return
+    ctx.touch(f)
+    tab = mir_enum_table(f, 2) or {}
+    want_false = {"FunctionDef", "Assign", "AssignExisting", "AssignIndex", "Loop", "Break", "Continue", "Expression"}
+    for kind in sorted(tab):
+        vals = [str(x) for x in tab[kind]]
+        key = "always-returns|%s" % kind
+        if kind in want_false:
+            if vals == ["false"]:
+                ctx.ok(key, f.where(), "never counts as returning")
+            else:
+                ctx.bad(key + "|" + ",".join(vals)[:30], f.where(), "a %s statement is taken to return on every path (%s): the implicit null of falling off the end is dropped from the inferred return type" % (kind, vals))
+        elif kind == "Return":
+            if vals == ["true"]:
+                ctx.ok(key, f.where(), "returns")
+            else:
+                ctx.bad(key + "|" + ",".join(vals)[:30], f.where(), "`return` does not count as returning (%s): every function is typed as possibly null" % vals)
+        elif kind == "Block":
+            if len(vals) == 1 and vals[0].startswith("call:collect_return_types"):
+                ctx.ok(key, f.where(), "what the block's statements say")
+            else:
+                ctx.bad(key + "|" + ",".join(vals)[:30], f.where(), "a nested block's verdict is %s, not that of its statements" % vals)
+        elif kind == "If":
+            arm = _dispatch_arm(f, "parser::Stmt", "If") or set()
+            calls = [c for c in f.calls() if c.block in arm]
+            optimistic = [c for c in calls if (c.callee or "").split("::")[-1] in ("is_none_or", "unwrap_or_default") or ((c.callee or "").split("::")[-1] in ("map_or", "unwrap_or") and len(c.args) > 1 and c.args[1].get("const") in ("true", True))]
+            missing_else_false = any((c.callee or "").split("::")[-1] == "is_some_and" or ((c.callee or "").split("::")[-1] in ("map_or", "unwrap_or") and len(c.args) > 1 and str(c.args[1].get("const")) == "false") for c in calls) or "false" in vals
+            both = sum(1 for c in calls if (c.callee or "").endswith("Resolver::collect_return_types")) + sum(1 for g in ctx.lib.closures_of(f.id) for c in g.calls() if (c.callee or "").endswith("Resolver::collect_return_types"))
+            if optimistic or not missing_else_false:
+                ctx.bad(key + "|missing-else-returns", f.where(), "an `if` without an else is taken to return whenever its then-branch does (%s): a function whose only returns sit in else-less ifs loses the null of falling off its end, so `not f(x)` on its result is rejected (and `f(x) minus 1` accepted)" % sorted({(c.callee or "").split("::")[-1] for c in optimistic} or {"no false default"}))
+            elif both >= 2 and "true" not in vals:
+                ctx.ok(key, f.where(), "both branches, a missing else is false")
+            else:
+                ctx.bad(key + "|shape|" + ",".join(vals)[:30], f.where(), "the verdict for an `if` does not combine both branches (%s)" % vals)
+    missing = (want_false | {"Return", "Block", "If"}) - set(tab)
+    if missing:
+        ctx.bad("always-returns|kinds-missing|%s" % ",".join(sorted(missing)), f.where(), "no verdict for %s" % sorted(missing))
+    g = ctx.need("resolver::Resolver::collect_return_types")
+    ctx.touch(g)
+    ors = [st for b in g.live for st in g.blocks[b]["s"] if st["rv"]["k"] == "bin" and st["rv"]["op"] in ("BitOr", "BitAnd")]
+    inits = [str(st["rv"]["a"].get("const")) for b in g.live for st in g.blocks[b]["s"] if st["rv"]["k"] == "use" and isinstance(st["rv"]["a"], dict) and "const" in st["rv"]["a"] and g.locals[st["lhs"]["l"]]["ty"] == "bool" and not st["lhs"]["p"]]
+    if ors and all(st["rv"]["op"] == "BitOr" for st in ors) and "true" not in inits:
+        ctx.ok("always-returns|sequence", g.where(), "a sequence returns when some statement of it does; starts from false")
+    else:
+        ctx.bad("always-returns|sequence|%s" % ",".join(sorted({st["rv"]["op"] for st in ors}) or ["none"]), g.where(), "the verdict for a sequence of statements is not `some statement always returns, starting from false` (%s, initial %s)" % ([st["rv"]["op"] for st in ors], inits))
+
+
+RULES = [("C09-R1", r1a_typing_tables), ("C09-R1b", r1b_accepted_is_evaluable), ("C09-R1c", r1c_inferred_types), ("C09-R1d", r1d_inferred_type_is_sound), ("C09-R2", r2_rule_presence), ("C09-R3", r3_context_per_function), ("C09-R4", r4_declared_type_follows_latest_declaration), ("C09-R5", r5_every_child_is_checked), ("C09-R6", r6_scope_of_a_declaration), ("C09-R7", r7_fixpoints_run_to_the_end), ("C09-R8", r8_static_tables_are_the_documented_ones), ("C09-R9", r9_return_types_are_inferred_in_the_function_s_own_scope), ("C09-R10", r10_static_types_stay_true_under_assignment), ("C09-R11", r11_always_returns_is_a_must_analysis)]
 
 EXPLANATION = (
     "R1: the accept/reject arms of check_expr are evaluated arm-by-arm (first-match semantics over name-resolved HIR patterns) "
